@@ -22,6 +22,44 @@ use std::task::{Context, Poll, Wake, Waker};
 use tokio::io::{AsyncRead, AsyncWrite, ReadBuf};
 
 // ---------------------------------------------------------------------------------------
+// Watchdog support: every emitted event is also appended to a global log, and the command in flight
+// is published, so that a watchdog thread can write the partial trace plus a `hang` event when one
+// step of the code under test never returns (a busy loop or a blocking call inside one poll).
+// ---------------------------------------------------------------------------------------
+pub static PROGRESS: std::sync::atomic::AtomicU64 = std::sync::atomic::AtomicU64::new(0);
+pub static IN_STEP: std::sync::atomic::AtomicBool = std::sync::atomic::AtomicBool::new(false);
+pub static LOG: Mutex<Vec<String>> = Mutex::new(Vec::new());
+pub static CUR: Mutex<String> = Mutex::new(String::new());
+
+/// Start the watchdog: if a single step takes longer than `secs`, write everything logged so far plus
+/// `{"ev":"hang","cmd":...}` to `out` and exit with status 3.
+pub fn start_watchdog(out: String, secs: u64) {
+    std::thread::spawn(move || {
+        let mut last = PROGRESS.load(Ordering::SeqCst);
+        let mut since = std::time::Instant::now();
+        loop {
+            std::thread::sleep(std::time::Duration::from_millis(250));
+            let now = PROGRESS.load(Ordering::SeqCst);
+            if now != last || !IN_STEP.load(Ordering::SeqCst) {
+                last = now;
+                since = std::time::Instant::now();
+                continue;
+            }
+            if since.elapsed().as_secs() >= secs {
+                let mut lines = LOG.lock().unwrap().clone();
+                let cmd: Value = serde_json::from_str(&CUR.lock().unwrap()).unwrap_or(Value::Null);
+                lines.push(json!({"ev": "hang", "cmd": cmd, "woke": []}).to_string());
+                let mut text = lines.join("\n");
+                text.push('\n');
+                std::fs::write(&out, text).ok();
+                eprintln!("mux_sim: watchdog: a step did not return within {secs}s");
+                std::process::exit(3);
+            }
+        }
+    });
+}
+
+// ---------------------------------------------------------------------------------------
 // Timestamp provider that never moves (keepalive is disabled in this simulator)
 // ---------------------------------------------------------------------------------------
 #[derive(Copy, Clone, Debug)]
@@ -79,6 +117,8 @@ pub enum WireItem {
 pub enum SinkState {
     Open,
     Cut,
+    /// failure that only shows when something is sent or the sink is closed (poll_ready succeeds)
+    SoftCut,
     Closed,
 }
 
@@ -130,7 +170,7 @@ impl WebSocket for SimWs {
         let end = &l.ends[self.me];
         match end.sink {
             SinkState::Cut | SinkState::Closed => Poll::Ready(Err(ws_err())),
-            SinkState::Open => {
+            SinkState::Open | SinkState::SoftCut => {
                 if end.send_grant > 0 {
                     Poll::Ready(Ok(()))
                 } else {
@@ -142,10 +182,10 @@ impl WebSocket for SimWs {
     fn start_send_unpin(&mut self, item: Message) -> Result<(), penguin_mux::Error> {
         let mut l = self.link.lock().unwrap();
         let end = &mut l.ends[self.me];
+        end.send_grant = end.send_grant.saturating_sub(1);
         if end.sink != SinkState::Open {
             return Err(ws_err());
         }
-        end.send_grant = end.send_grant.saturating_sub(1);
         end.sent_log.push(item.clone());
         end.wire.push_back(WireItem::Msg(item));
         Ok(())
@@ -164,7 +204,7 @@ impl WebSocket for SimWs {
                 Poll::Ready(Ok(()))
             }
             SinkState::Closed => Poll::Ready(Ok(())),
-            SinkState::Cut => Poll::Ready(Err(ws_err())),
+            SinkState::Cut | SinkState::SoftCut => Poll::Ready(Err(ws_err())),
         }
     }
     fn poll_next_unpin(
@@ -594,6 +634,7 @@ impl Sim {
             cur_cmd: Value::Null,
         };
         let ev = json!({"ev": "reset", "cfg": {"A": s.eps[0].cfg, "B": s.eps[1].cfg}, "real": real});
+        LOG.lock().unwrap().push(ev.to_string());
         s.out.push(ev);
         s
     }
@@ -609,6 +650,7 @@ impl Sim {
         }
         let woke = self.wakers.take_woken();
         ev["woke"] = json!(woke);
+        LOG.lock().unwrap().push(ev.to_string());
         self.out.push(ev);
     }
 
@@ -622,7 +664,11 @@ impl Sim {
             return false;
         }
         self.cur_cmd = cmd.clone();
+        *CUR.lock().unwrap() = cmd.to_string();
+        IN_STEP.store(true, Ordering::SeqCst);
+        PROGRESS.fetch_add(1, Ordering::SeqCst);
         let r = catch_unwind(AssertUnwindSafe(|| self.exec_inner(cmd)));
+        IN_STEP.store(false, Ordering::SeqCst);
         match r {
             Ok(b) => b,
             Err(p) => {
@@ -1043,6 +1089,12 @@ impl Sim {
                                 return false;
                             }
                             l.ends[i].sink = SinkState::Cut;
+                        }
+                        "softcut" => {
+                            if l.ends[i].sink != SinkState::Open {
+                                return false;
+                            }
+                            l.ends[i].sink = SinkState::SoftCut;
                         }
                         _ => return false,
                     }
